@@ -40,8 +40,8 @@ theorem foldl_insertKV_nodup (f : GValue → GValue → GValue) (kvs : List (Str
     · simpa [List.append_assoc] using h
 
 /-- with pairwise distinct keys `create_value_object` is the association list itself -/
-theorem createValueObject_nodup (fuel : Nat) (kvs : List (String × GValue)) (h : (kvs.map (·.1)).Nodup) :
-    createValueObject fuel kvs = .obj kvs := by
+theorem createValueObject_nodup (D : Defects) (fuel : Nat) (kvs : List (String × GValue)) (h : (kvs.map (·.1)).Nodup) :
+    createValueObject D fuel kvs = .obj kvs := by
   unfold createValueObject
   rw [foldl_insertKV_nodup _ kvs [] (by simpa using h)]
   simp
@@ -910,7 +910,7 @@ theorem container_val_eq (c : Model.ExecStatic.Ctx) (H : DataHyps c) :
         (Model.ExecStatic.collect c rt (fuel + 1) st sels) hRF
       have hcomp : ((fun f : Unit → Res => f ()) ∘ fun occ => fun (_ : Unit) => runField c (resolveContainer c fuel) rt id path occ) =
           (fun occ => runField c (resolveContainer c fuel) rt id path occ) := rfl
-      rw [hcomp, hk, createValueObject_nodup _ _ (List.Nodup.sublist (keys_filterMap_sublist _ _) hkeys)]
+      rw [hcomp, hk, createValueObject_nodup _ _ _ (List.Nodup.sublist (keys_filterMap_sublist _ _) hkeys)]
       simp
 
 
@@ -1483,6 +1483,105 @@ theorem run_errs_sub (S : Schema) (d : Doc) (opName : Option String) (raw : List
     exact container_errs_sub (runCtx S d op raw w) h.data fuel (rootOf S op) (rootOf S op) 0 op.sels [] h.root
       (doesApply_self S _ h.root) h.opInert h.keys hdeep
 
+
+-- ------------------------------------------------------------------ towards the merge lemma: insert = group, then merge
+
+/-- group key/value pairs by key, groups in order of first occurrence (mirror of `Spec.Exec.group`) -/
+def groupKV (kvs : List (String × GValue)) : List (String × List GValue) :=
+  kvs.foldl (fun gs p =>
+    if gs.any (·.1 = p.1) then gs.map (fun g => if g.1 = p.1 then (g.1, g.2 ++ [p.2]) else g)
+    else gs ++ [(p.1, [p.2])]) []
+
+/-- left fold of the merge over the values of one key, in occurrence order -/
+def mergeAll (f : GValue → GValue → GValue) : List GValue → GValue
+  | [] => .null
+  | v :: vs => vs.foldl f v
+
+theorem mergeAll_snoc (f : GValue → GValue → GValue) (vs : List GValue) (v : GValue) (h : vs ≠ []) :
+    mergeAll f (vs ++ [v]) = f (mergeAll f vs) v := by
+  cases vs with
+  | nil => exact absurd rfl h
+  | cons v0 r => simp [mergeAll, List.foldl_append]
+
+theorem insertKV_group_step (f : GValue → GValue → GValue) (gs : List (String × List GValue))
+    (hne : ∀ g ∈ gs, g.2 ≠ []) (k : String) (v : GValue) :
+    insertKV f (gs.map (fun g => (g.1, mergeAll f g.2))) k v =
+      (if gs.any (·.1 = k) then gs.map (fun g => if g.1 = k then (g.1, g.2 ++ [v]) else g)
+        else gs ++ [(k, [v])]).map (fun g => (g.1, mergeAll f g.2)) := by
+  unfold insertKV
+  have hany : (gs.map (fun g => (g.1, mergeAll f g.2))).any (fun p => decide (p.1 = k)) = gs.any (fun g => decide (g.1 = k)) := by
+    rw [List.any_map]; rfl
+  rw [hany]
+  by_cases h : gs.any (fun g => decide (g.1 = k)) = true
+  · rw [if_pos h, if_pos h, List.map_map, List.map_map]
+    apply List.map_congr_left
+    intro g hg
+    by_cases hk : g.1 = k
+    · simp [hk, mergeAll_snoc f g.2 v (hne g hg)]
+    · simp [hk]
+  · rw [if_neg h, if_neg h]
+    simp [mergeAll]
+
+theorem foldl_insertKV_group (f : GValue → GValue → GValue) (kvs : List (String × GValue)) :
+    ∀ (gs : List (String × List GValue)), (∀ g ∈ gs, g.2 ≠ []) →
+      kvs.foldl (fun m p => insertKV f m p.1 p.2) (gs.map (fun g => (g.1, mergeAll f g.2))) =
+        (kvs.foldl (fun gs p =>
+          if gs.any (·.1 = p.1) then gs.map (fun g => if g.1 = p.1 then (g.1, g.2 ++ [p.2]) else g)
+          else gs ++ [(p.1, [p.2])]) gs).map (fun g => (g.1, mergeAll f g.2)) := by
+  induction kvs with
+  | nil => intro gs _; rfl
+  | cons p ps ih =>
+    intro gs hne
+    rw [List.foldl_cons, List.foldl_cons, insertKV_group_step f gs hne]
+    apply ih
+    intro g hg
+    split at hg
+    · simp only [List.mem_map] at hg
+      obtain ⟨g', hg', rfl⟩ := hg
+      split
+      · simp
+      · exact hne g' hg'
+    · simp only [List.mem_append, List.mem_singleton] at hg
+      rcases hg with hg | rfl
+      · exact hne g hg
+      · simp
+
+/-- `create_value_object` = group the field results by response key (first-occurrence order), then
+    fold `merge_value` over each key's values in occurrence order — for every list of results -/
+theorem createValueObject_group (D : Defects) (fuel : Nat) (kvs : List (String × GValue)) :
+    createValueObject D fuel kvs =
+      .obj ((groupKV kvs).map (fun g => (g.1, mergeAll (merge D.mergeKeepsPartialOnNull (4 * fuel)) g.2))) := by
+  unfold createValueObject groupKV
+  have := foldl_insertKV_group (merge D.mergeKeepsPartialOnNull (4 * fuel)) kvs [] (by simp)
+  simpa using this
+
+-- ------------------------------------------------------------------ validity for repeated response keys (open statements)
+
+def listDepth : TypeRef → Nat
+  | .named _ => 0
+  | .list t => listDepth t + 1
+  | .nonNull t => listDepth t
+
+/-- like `noRepeatedKeys`, but a response key may repeat when all its occurrences name the same field
+    with the same arguments (FieldsInSetCanMerge, per runtime type); the sub-selections are then
+    checked merged.  the model's `merge` is given four units of fuel per selection level, hence `listDepth ≤ 3`
+    for repeated keys. -/
+def mergeableKeys (c : Model.ExecStatic.Ctx) : Nat → String → String → List Sel → Bool
+  | 0, _, _, _ => true
+  | fuel + 1, st, rt, sels =>
+    decide (spreads c.d (fuel + 1) sels).Nodup &&
+    (AGV.Spec.Exec.group (Model.ExecStatic.collect c rt (fuel + 1) st sels)).all (fun g =>
+      match g.2 with
+      | [] => true
+      | o :: rest =>
+        rest.all (fun o' => o'.name = o.name && o'.args == o.args) &&
+        (o.name = "__typename" ||
+          match c.S.field? rt o.name with
+          | none => false
+          | some fd =>
+            (rest.isEmpty || decide (listDepth fd.ty ≤ 3)) &&
+            (c.S.possibleTypes fd.ty.base).all (fun ty =>
+              mergeableKeys c fuel fd.ty.base ty (g.2.map (·.sels)).flatten)))
 
 -- ------------------------------------------------------------------ a non-trivial instance of the hypotheses
 
